@@ -2571,3 +2571,13 @@ silent_multi("c07-chain-renamed-locals", ["C07", "C06"], PF, [
      "                chain.append(Comparison(left_exp, comp, right_exp))\n"),
     ("            left_exp = links[0] if len(links) == 1 else LogicalAnd(tuple(links))\n",
      "            left_exp = chain[0] if len(chain) == 1 else LogicalAnd(tuple(chain))\n")])
+
+silent("c13-setstate-unpacks-state", ["C13", "C17"], CO,
+       "    def __setstate__(self, state):\n        self._compile(*state)\n",
+       "    def __setstate__(self, state):\n"
+       "        self._compile(state[0], state[1])\n")
+fire("c13-setstate-swaps-state", ["C13", "C17"], CO,
+     "    def __setstate__(self, state):\n        self._compile(*state)\n",
+     "    def __setstate__(self, state):\n"
+     "        self._compile(state[1], state[0])\n",
+     "pickle-state")
